@@ -5,6 +5,7 @@
   statement says "exactly these bytes".
 -/
 import EchoVerif.Lemmas.Cas
+import EchoVerif.Lemmas.WscStore
 
 set_option linter.unusedSimpArgs false
 set_option linter.unusedVariables false
@@ -330,6 +331,177 @@ theorem retention_range_bounded (ix : Index) (s : Mem) (c : Coord) (off len max 
         refine ⟨by omega, by omega, b, rfl, rfl, fun hb => ?_⟩
         simp [List.length_take, List.length_drop]; omega
 
+/-! ## Snapshot store (wsc/store.rs): retained-evidence export / re-import, two-file publication -/
+
+section WscStore
+open EchoVerif.Wsc
+
+variable {ρ κ : Type} [DecidableEq ρ] [DecidableEq κ] [LinOrd κ] (key : ρ → κ) (ident : ρ → Nat)
+
+/-- **wsc_canonical_conflict_iff.** The export/import canonicalisation is obstructed EXACTLY when two
+    different records claim one identity (material digest / reading id): such records are never
+    merged or aliased, and a consistent record set is never refused. -/
+theorem wsc_canonical_conflict_iff (rs : List ρ) :
+    canonical key ident rs = none ↔ ∃ a ∈ rs, ∃ b ∈ rs, ident a = ident b ∧ a ≠ b := by
+  unfold canonical
+  constructor
+  · intro h
+    apply Classical.byContradiction
+    intro hno
+    have hc : ∀ a ∈ ([] : List ρ) ++ rs, ∀ b ∈ ([] : List ρ) ++ rs, ident a = ident b → a = b := by
+      intro a ha b hb e
+      apply Classical.byContradiction
+      intro ne
+      exact hno ⟨a, by simpa using ha, b, by simpa using hb, e, ne⟩
+    obtain ⟨st, hst⟩ := foldl_some_of_consistent key ident rs [] [] []
+      (fun x hx => by cases hx) (fun x ⟨y, hy⟩ => by cases hy) hc
+    rw [hst] at h; cases h
+  · rintro ⟨a, ha, b, hb, e, ne⟩
+    cases hf : rs.foldl (canonStep key ident) (some ([], [])) with
+    | none => rfl
+    | some st =>
+      exfalso
+      have hI := idInv_foldl key ident rs [] [] [] st (fun x hx => by cases hx) hf
+      have h1 := hI a (by simpa using ha)
+      have h2 := hI b (by simpa using hb)
+      rw [e, h2] at h1
+      cases h1; exact ne rfl
+
+/-- **wsc_canonical_exact.** With an injective sort key (the payload bytes), a successful
+    canonicalisation returns exactly the input records — nothing lost, nothing invented — strictly
+    ordered by key (so duplicate-free). -/
+theorem wsc_canonical_exact (hinj : Function.Injective key) (rs out : List ρ)
+    (h : canonical key ident rs = some out) :
+    ∃ bk : SMap κ ρ, Sorted bk ∧ out = values bk ∧ (∀ p ∈ bk, p.1 = key p.2) ∧ ∀ r, r ∈ out ↔ r ∈ rs := by
+  unfold canonical at h
+  cases hf : rs.foldl (canonStep key ident) (some ([], [])) with
+  | none => rw [hf] at h; cases h
+  | some st =>
+    rw [hf] at h; simp only at h; cases h
+    have hK := keyInv_foldl key ident hinj rs [] [] [] st ⟨True.intro, (fun k r hk => by cases hk), (fun r hr => by cases hr)⟩ hf
+    obtain ⟨hs, h1, h2⟩ := hK
+    refine ⟨st.1, hs, rfl, ?_, ?_⟩
+    · intro p hp
+      exact (h1 p.1 p.2 (mem_find? hs hp)).1
+    · intro r
+      simp only [values, List.mem_map]
+      constructor
+      · rintro ⟨p, hp, rfl⟩
+        simpa using (h1 p.1 p.2 (mem_find? hs hp)).2
+      · intro hr
+        exact ⟨(key r, r), find?_mem (h2 r (by simpa using hr)), rfl⟩
+
+/-- **wsc_canonical_order_free.** Export and import do not depend on the order (or multiplicity)
+    in which records arrive: any two inputs with the same members canonicalise identically. -/
+theorem wsc_canonical_order_free (hinj : Function.Injective key) (rs rs' : List ρ)
+    (hm : ∀ r, r ∈ rs ↔ r ∈ rs') : canonical key ident rs = canonical key ident rs' := by
+  cases h1 : canonical key ident rs with
+  | none =>
+    obtain ⟨a, ha, b, hb, e, ne⟩ := (wsc_canonical_conflict_iff key ident rs).mp h1
+    exact ((wsc_canonical_conflict_iff key ident rs').mpr ⟨a, (hm a).mp ha, b, (hm b).mp hb, e, ne⟩).symm
+  | some out =>
+    cases h2 : canonical key ident rs' with
+    | none =>
+      obtain ⟨a, ha, b, hb, e, ne⟩ := (wsc_canonical_conflict_iff key ident rs').mp h2
+      have := (wsc_canonical_conflict_iff key ident rs).mpr ⟨a, (hm a).mpr ha, b, (hm b).mpr hb, e, ne⟩
+      rw [h1] at this; cases this
+    | some out' =>
+      obtain ⟨bk, hs, ho, hk, hmem⟩ := wsc_canonical_exact key ident hinj rs out h1
+      obtain ⟨bk', hs', ho', hk', hmem'⟩ := wsc_canonical_exact key ident hinj rs' out' h2
+      have hfind : ∀ (b1 b2 : SMap κ ρ) (o1 o2 : List ρ), Sorted b2 → o1 = values b1 → o2 = values b2 →
+          (∀ p ∈ b1, p.1 = key p.2) → (∀ p ∈ b2, p.1 = key p.2) → (∀ r, r ∈ o1 → r ∈ o2) →
+          ∀ k r, find? k b1 = some r → find? k b2 = some r := by
+        intro b1 b2 o1 o2 s2 e1 e2 k1 k2 sub k r hf
+        have hp := find?_mem hf
+        have hk1 : k = key r := k1 _ hp
+        have hr2 : r ∈ o2 := sub r (by rw [e1]; exact List.mem_map.mpr ⟨(k, r), hp, rfl⟩)
+        rw [e2] at hr2
+        obtain ⟨q, hq, hqr⟩ := List.mem_map.mp hr2
+        have hq1 : q.1 = k := by rw [k2 q hq, hqr, hk1]
+        have hqe : q = (k, r) := by
+          cases q; simp only at hq1 hqr; subst hq1; subst hqr; rfl
+        rw [hqe] at hq
+        exact mem_find? s2 hq
+      have hsub : ∀ r, r ∈ out → r ∈ out' := fun r hr => (hmem' r).mpr ((hm r).mp ((hmem r).mp hr))
+      have hsub' : ∀ r, r ∈ out' → r ∈ out := fun r hr => (hmem r).mpr ((hm r).mpr ((hmem' r).mp hr))
+      have hext : bk = bk' := by
+        apply SMap.ext hs hs'
+        intro k
+        cases hf : find? k bk with
+        | some r => exact (hfind bk bk' out out' hs' ho ho' hk hk' hsub k r hf).symm
+        | none =>
+          cases hf' : find? k bk' with
+          | none => rfl
+          | some r =>
+            have := hfind bk' bk out' out hs ho' ho hk' hk hsub' k r hf'
+            rw [hf] at this; cases this
+      rw [ho, ho', hext]
+
+/-- **wsc_canonical_idempotent.** Re-importing what was exported changes nothing: canonicalising a
+    canonical record list returns it unchanged (export ∘ import is the identity on records). -/
+theorem wsc_canonical_idempotent (hinj : Function.Injective key) (rs out : List ρ)
+    (h : canonical key ident rs = some out) : canonical key ident out = some out := by
+  obtain ⟨bk, hs, ho, hk, hmem⟩ := wsc_canonical_exact key ident hinj rs out h
+  rw [wsc_canonical_order_free key ident hinj out rs hmem, h]
+
+/-! ### the store: envelope file + commit marker, both under attack -/
+
+/-- **wsc_read_ok_iff_intact.** For EVERY state of the two backing files (so after every history of
+    writes, deletions, bit flips and planted foreign envelopes): `read_envelope id` succeeds exactly
+    when both the envelope file and the commit marker are byte-identical to what the store writes for
+    `id`; it reports `MissingEnvelope` exactly when both are absent. Everything else is a typed
+    obstruction — never other content. -/
+theorem wsc_read_ok_iff_intact (s : Store) (id : Nat) :
+    (s.read id = .ok ↔ matOf s.envs id = .good ∧ matOf s.marks id = .good) ∧
+    (s.read id = .missing ↔ matOf s.envs id = .absent ∧ matOf s.marks id = .absent) := by
+  unfold Store.read
+  cases matOf s.envs id <;> cases matOf s.marks id <;> simp [readOf]
+
+/-- **wsc_acknowledged_write_readable.** In every state, a `write_envelope` that returns Ok leaves
+    the envelope readable; one that is obstructed leaves both files untouched. -/
+theorem wsc_acknowledged_write_readable (s : Store) (id : Nat) :
+    ((s.write id).2 = .ok → (s.write id).1.read id = .ok) ∧
+    ((s.write id).2 ≠ .ok → (s.write id).1 = s) := by
+  cases he : matOf s.envs id <;> cases hm : matOf s.marks id <;>
+    simp [Store.write, Store.stage, Store.commit, Store.read, stageOf, commitOf, readOf, he, hm,
+      matOf_insert_self]
+
+/-- **wsc_staged_invisible.** Staging without a commit marker never makes the envelope readable
+    (a half-finished write is reported `IncompleteEnvelopeWrite`, not served). -/
+theorem wsc_staged_invisible (s : Store) (id : Nat) (hm : matOf s.marks id = .absent) :
+    (s.stage id).1.read id ≠ .ok := by
+  cases he : matOf s.envs id <;>
+    simp [Store.stage, Store.read, stageOf, readOf, he, hm, matOf_insert_self]
+
+/-- **wsc_import_needs_every_envelope.** A store import that returns records has read EVERY listed
+    envelope successfully: one withheld or corrupted file blocks the import with its obstruction. -/
+theorem wsc_import_needs_every_envelope (s : Store) (recs : Nat → List Material × List Reading)
+    (ms : List Material) (rs : List Reading) (h : s.importRetention recs = .records ms rs) :
+    ∀ id ∈ s.list, s.read id = .ok := by
+  have key : ∀ ids : List Nat, firstBlocked s ids = none → ∀ id ∈ ids, s.read id = .ok := by
+    intro ids
+    induction ids with
+    | nil => intro _ id hid; cases hid
+    | cons x xs ih =>
+      intro hf id hid
+      simp only [firstBlocked] at hf
+      cases hx : s.read x with
+      | ok =>
+        rw [hx] at hf
+        rcases List.mem_cons.mp hid with e | hm
+        · rw [e]; exact hx
+        · exact ih hf id hm
+      | missing => rw [hx] at hf; cases hf
+      | incomplete => rw [hx] at hf; cases hf
+      | obstructed => rw [hx] at hf; cases hf
+  apply key
+  unfold Store.importRetention at h
+  cases hb : firstBlocked s s.list with
+  | none => rfl
+  | some r => rw [hb] at h; cases h
+
+end WscStore
+
 /-! ## Non-vacuity -/
 
 /-- A collision-free `H : Bytes → Hash` exists (bijective base-256 numeration), so `mem_get_exact`
@@ -372,5 +544,20 @@ example : (putVerifiedFastPathFirst (fun b => b.length) (Mem.new.put (fun b => b
 /-- A tampered file is reported, an untouched one is served (`H := length`). -/
 example : (((Disk.empty.put (fun b => b.length) [1, 2]).1.advWrite 2 [9]).get (fun b => b.length) 2)
     = .corrupt { expected := 2, computed := 1 } := by decide
+
+/-- The snapshot-store theorems instantiate at the real record types (payload key injective). -/
+example (ms ms' : List Wsc.Material) (h : ∀ r, r ∈ ms ↔ r ∈ ms') : Wsc.canonMaterials ms = Wsc.canonMaterials ms' :=
+  wsc_canonical_order_free Wsc.Material.key Wsc.Material.digest Wsc.Material.key_injective ms ms' h
+example (rs out : List Wsc.Reading) (h : Wsc.canonReadings rs = some out) : Wsc.canonReadings out = some out :=
+  wsc_canonical_idempotent Wsc.Reading.key Wsc.Reading.readingId Wsc.Reading.key_injective rs out h
+
+/-- Same material digest re-filed under another semantic coordinate: refused, not aliased. -/
+example : Wsc.canonMaterials [⟨1, 10, 1, 1⟩, ⟨1, 11, 1, 1⟩] = none := by decide
+example : Wsc.canonMaterials [⟨2, 10, 1, 1⟩, ⟨1, 10, 1, 1⟩, ⟨2, 10, 1, 1⟩] = some [⟨1, 10, 1, 1⟩, ⟨2, 10, 1, 1⟩] := by decide
+
+/-- A planted foreign envelope obstructs; a staged one is incomplete; write-then-read is Ok. -/
+example : ((Wsc.Store.empty.write 5).1.plantEnv 5 6).read 5 = .obstructed := by decide
+example : (Wsc.Store.empty.stage 5).1.read 5 = .incomplete := by decide
+example : (Wsc.Store.empty.write 5).1.read 5 = .ok := by decide
 
 end EchoVerif.C20
